@@ -32,3 +32,13 @@ package config
 //@   loop 2: invariant[C02,C01] sum != nil && ptval(sum) == psum(visitedset(2), T)
 //@   loop 2: invariant[C02,C01] forall(k, party.ID, visited(2, k) ==> indom(c.Public, k))
 //@   loop 2: invariant forall(j, party.ID, indom(l, j) ==> (l[j] != nil && scval(l[j]) == lagr(idsval(partyIDs), idsc(j))))
+
+// Restoring a configuration (C15): never panics on arbitrary bytes, and succeeds only if the secret primes and every
+// other party's modulus passed the size gates and the threshold/party-count relation holds.
+//@ func (*Config).UnmarshalBinary
+//@   nopanic[C05,C15]
+//@   requires c != nil
+//@   assert_at[C15] NewSecretKeyFromPrimes "paillier.NewSecretKeyFromPrimes(cm.P, cm.Q)": arg0 != nil && arg1 != nil && nbits(natval(arg0)) == 1024 && nbits(natval(arg1)) == 1024
+//@   assert_at[C15] NewPublicKey "paillier.NewPublicKey(p.N)": arg0 != nil && nbits(natval(arg0)) == 2048
+//@   assert_at[C15] New "Pedersen: pedersen.New(paillierPublic.Modulus(), p.S, p.T)": arg1 != nil && arg2 != nil
+//@   ensures[C15,C20] result == nil ==> (c.Threshold >= 0 && c.Threshold < len(c.Public) && indom(c.Public, c.ID))
